@@ -35,6 +35,7 @@ import (
 	"time"
 
 	"github.com/AliceO2Group/Control/apricot"
+	"github.com/AliceO2Group/Control/common/controlmode"
 	"github.com/AliceO2Group/Control/common/event"
 	"github.com/AliceO2Group/Control/common/gera"
 	"github.com/AliceO2Group/Control/common/logger/infologger"
@@ -1271,7 +1272,15 @@ func (m *Manager) handleMessage(tm *TaskmanMessage) error {
 				WithField("partition", tm.GetEnvironmentId().String()). // fixme: this is empty!
 				Info("task finished")
 			taskIDValue := mesosStatus.GetTaskID().Value
-			m.updateTaskState(taskIDValue, "DONE")
+			t := m.GetTask(taskIDValue)
+			if t != nil && t.IsLocked() &&
+				t.GetControlMode() != controlmode.BASIC && t.GetControlMode() != controlmode.HOOK {
+				// A controllable task only ends when it is asked to, which happens after its environment released it.
+				// If it finishes while an environment still owns it, its process is gone: same as a failed task.
+				go m.updateTaskState(taskIDValue, "ERROR")
+			} else {
+				m.updateTaskState(taskIDValue, "DONE")
+			}
 			m.tasksFinished++
 		case mesos.TASK_LOST, mesos.TASK_KILLED, mesos.TASK_FAILED, mesos.TASK_ERROR:
 			log.WithPrefix("taskman").
